@@ -258,6 +258,13 @@ Proof.
   - destruct (lstep_o L a) as [L1|] eqn:S; [|discriminate]. eapply IH; [|exact E]. eapply lo_step; eauto.
 Qed.
 
+Lemma lrun_c_reach tr : forall L L', lreach_c L -> lrun_c L tr = Some L' -> lreach_c L'.
+Proof.
+  induction tr as [|a tr IH]; intros L L' R E; cbn in E.
+  - injection E as <-. exact R.
+  - destruct (lstep_c L a) as [L1|] eqn:S; [|discriminate]. eapply IH; [|exact E]. eapply lc_step; eauto.
+Qed.
+
 (* the quiescent-close LTS also contains the sequential semantics *)
 Lemma all_idle_others t l : all_idle l -> others_idle t l = true.
 Proof.
